@@ -98,7 +98,7 @@ class Socket:
     def send_multipart(self, msg, flags=0):
         if self.actor.dead or self.closed:
             return
-        msg = [bytes(m) for m in msg]
+        msg = [wire_bytes(m) for m in msg]
         w = self.world
         if self.typ == PUB:
             w.wire('pub', self, msg)
@@ -131,6 +131,17 @@ class Socket:
             return
         self.closed = True
         self.world.close_socket(self)
+
+
+def wire_bytes(part):
+    """What pyzmq puts on the wire for one message part: a contiguous buffer goes out as it lies in memory (a Fortran-ordered array is NOT
+    re-linearised into C order, which bytes() would do), a non-contiguous buffer is refused."""
+    if isinstance(part, (bytes, bytearray)):
+        return bytes(part)
+    mv = memoryview(part)
+    if not mv.contiguous:
+        raise BufferError('memoryview: underlying buffer is not contiguous')
+    return mv.tobytes(order='A')
 
 
 class Context:
